@@ -1,18 +1,209 @@
 import SkoolVerif.Prelude.Proto
 import SkoolVerif.Model.Z80Rle
-open Proto Z80Rle
+import SkoolVerif.Model.SnapEdit
+import SkoolVerif.Model.SnapHeader
+open Proto Z80Rle SnapEdit
 
-def handle (line : String) : String :=
+/-! Line-protocol driver for C09: RLE coder, page-block reader, header field encodings, and the
+memory editors `poke`/`move`/`patch` on a flat list and on a `Memory` (stateful). -/
+
+structure St where
+  flat : List Nat
+  mem : Mem
+  base : List Nat
+
+def errName : Err → String
+  | .index => "index" | .type => "type" | .stepZero => "stepZero" | .noValue => "noValue"
+  | .badPage => "badPage" | .badValue => "badValue" | .badRange => "badRange"
+  | .fewArgs => "fewArgs" | .badInt => "badInt" | .noFile => "noFile" | .badAddr => "badAddr"
+
+def cellVal (k b i : Nat) : Nat := (i * k + b * 37 + i / 251) % 256
+
+/-- k-independent 16K pattern, computed once; banks are rotations of it (cheap in the interpreter) -/
+def baseBank : List Nat := (List.range 16384).map (cellVal 7 0)
+
+def mkBank (base : List Nat) (k b : Nat) : List Nat :=
+  let r := (k * 97 + b * 1009) % 16384
+  base.drop r ++ base.take r
+
+def optNat : Option Nat → String
+  | none => "-"
+  | some n => toString n
+
+def wsum (l : List Nat) : Nat :=
+  (l.foldl (fun (acc : Nat × Nat) v => (acc.1 + 1, (acc.2 + (acc.1 + 1) * (v + 1)) % 1000000007)) (0, 0)).2
+
+def changes : List Nat → List Nat → Nat → List (Nat × Nat) → List (Nat × Nat)
+  | a :: as, b :: bs, i, acc => changes as bs (i + 1) (if a = b then acc else (i, b) :: acc)
+  | _, _, _, acc => acc.reverse
+
+/-- canonical description of how `new` differs from `old` ("" when equal) -/
+def diffList (old new : List Nat) : String :=
+  if old == new then ""
+  else if old.length ≠ new.length then s!"len={new.length},w={wsum new}"
+  else
+    let ch := changes old new 0 []
+    if ch.length > 48 then s!"n={ch.length},w={wsum (ch.map (·.2))},first={ch.head!.1},last={ch.getLast!.1}"
+    else ",".intercalate (ch.map (fun p => s!"{p.1}={p.2}"))
+
+def diffOpt (old new : Option (List Nat)) : String :=
+  match old, new with
+  | some a, some b => diffList a b
+  | none, none => ""
+  | _, _ => "presence"
+
+def diffMem (old new : Mem) : String :=
+  let parts := [("rom", diffList old.rom new.rom)] ++
+    (List.range (max old.banks.length new.banks.length)).map
+      (fun k => (s!"b{k}", diffOpt (old.banks[k]?.join) (new.banks[k]?.join)))
+  let parts := parts.filter (fun p => p.2 ≠ "")
+  let slots := if (old.s1, old.s2, old.s3) = (new.s1, new.s2, new.s3) then [] else ["slots"]
+  " ".intercalate (slots ++ parts.map (fun p => p.1 ++ ":" ++ p.2))
+
+def okStr (d : String) : String := if d = "" then "ok" else "ok " ++ d
+
+def showPoke (s : PokeSpec) : String :=
+  let op := match s.op with | .set => "set" | .xor => "xor" | .add => "add"
+  s!"ok {optNat s.page} {s.addr1} {s.addr2} {s.step} {op} {s.value}"
+
+def showMove (s : MoveSpec) : String :=
+  s!"ok {optNat s.srcPage} {optNat s.destPage} {s.src} {s.length} {s.dest}"
+
+def showPatch (s : PatchSpec) : String :=
+  s!"ok {optNat s.page} {s.addr} {String.ofList s.fname}"
+
+def showT (b : Int × Int × Int) : String := s!"ok {b.1} {b.2.1} {b.2.2}"
+
+/-- digest of the result of the page-block reader -/
+def showPages (r : List (Int × List Nat)) : String :=
+  "ok " ++ " ".intercalate (r.map (fun p => s!"{p.1}:{p.2.length}:{wsum p.2}"))
+
+/-- bank descriptor: `-` = None, `e` = empty list, else `v*n,v*n,…` (runs) -/
+def parseBank (w : String) : Option (Option (List Nat)) :=
+  if w = "-" then some none
+  else if w = "e" then some (some [])
+  else
+    let runs := (w.splitOn ",").mapM (fun r => match r.splitOn "*" with
+      | [v, n] => match v.toNat?, n.toNat? with
+        | some v, some n => some (List.replicate n v)
+        | _, _ => none
+      | _ => none)
+    runs.map (fun rs => some rs.flatten)
+
+def handle (st : St) (line : String) : St × String :=
   match words line with
-  | "enc" :: rest => match nats? rest with
+  | "enc" :: rest => (st, match nats? rest with
     | some d => "ok " ++ showNats (enc d)
-    | none => "bad-op"
-  | "dec" :: rest => match nats? rest with
+    | none => "bad-op")
+  | "dec" :: rest => (st, match nats? rest with
     | some d => match dec d with
       | .ok r => "ok " ++ showNats r
       | .error .zeroRun => "err zeroRun"
       | .error .truncated => "err truncated"
-    | none => "bad-op"
-  | _ => "bad-op"
+    | none => "bad-op")
+  | "pages" :: rest => (st, match nats? rest with
+    | some d => match readPages d with
+      | .ok r => showPages r
+      | .error .zeroRun => "err zeroRun"
+      | .error .truncated => "err truncated"
+      | .error .badLength => "err badLength"
+    | none => "bad-op")
+  | "wpages" :: first :: rest => (st, match first.toNat?, rest.mapM parseBank with
+    | some first, some banks => "ok " ++ showNats (writePages banks first)
+    | _, _ => "bad-op")
+  -- header fields -------------------------------------------------------
+  | ["z80wt", f, t] => (st, match int? f, int? t with
+    | some f, some t => showT (SnapHeader.z80WriteT f t)
+    | _, _ => "bad-op")
+  | ["z80rt", f, a, b, c] => (st, match ints? [f, a, b, c] with
+    | some [f, a, b, c] => s!"ok {SnapHeader.z80ReadT f (a, b, c)}"
+    | _ => "bad-op")
+  | ["szxwt", f, t] => (st, match int? f, int? t with
+    | some f, some t => showT (SnapHeader.szxWriteT f t)
+    | _, _ => "bad-op")
+  | ["szxrt", a, b, c, d] => (st, match ints? [a, b, c, d] with
+    | some [a, b, c, d] => s!"ok {SnapHeader.szxReadT4 (a, b, c, d)}"
+    | _ => "bad-op")
+  | ["z80ww", v] => (st, match int? v with
+    | some v => let w := SnapHeader.writeWord v; s!"ok {w.1} {w.2}"
+    | none => "bad-op")
+  | ["szxww", v] => (st, match int? v with
+    | some v => let w := SnapHeader.szxWriteWord v; s!"ok {w.1} {w.2}"
+    | none => "bad-op")
+  | ["rw", a, b] => (st, match int? a, int? b with
+    | some a, some b => s!"ok {SnapHeader.readWord (a, b)}"
+    | _, _ => "bad-op")
+  | ["wr", h, v] => (st, match int? h, int? v with
+    | some h, some v => let w := SnapHeader.writeR h v; s!"ok {w.1} {w.2}"
+    | _, _ => "bad-op")
+  | ["rr", a, b] => (st, match int? a, int? b with
+    | some a, some b => s!"ok {SnapHeader.readR a b} {SnapHeader.readBorder b}"
+    | _, _ => "bad-op")
+  | ["wb", h, v] => (st, match int? h, int? v with
+    | some h, some v => s!"ok {SnapHeader.writeBorder h v}"
+    | _, _ => "bad-op")
+  | ["wim", h, v] => (st, match int? h, int? v with
+    | some h, some v => s!"ok {SnapHeader.writeIm h v}"
+    | _, _ => "bad-op")
+  | ["wissue2", h, v] => (st, match int? h, int? v with
+    | some h, some v => s!"ok {SnapHeader.writeIssue2 h v}"
+    | _, _ => "bad-op")
+  | ["rim", h] => (st, match int? h with
+    | some h => s!"ok {SnapHeader.readIm h}"
+    | _ => "bad-op")
+  -- spec text -----------------------------------------------------------
+  | ["int", s, acc] => (st, match getIntParam s.toList (acc = "1") with
+    | some n => s!"ok {n}"
+    | none => "err value")
+  | ["ppoke", s] => (st, match parsePoke s.toList with
+    | .ok p => showPoke p
+    | .error e => "err " ++ errName e)
+  | ["pmove", s] => (st, match parseMove s.toList with
+    | .ok p => showMove p
+    | .error e => "err " ++ errName e)
+  | ["ppatch", s] => (st, match parsePatch s.toList with
+    | .ok p => showPatch p
+    | .error e => "err " ++ errName e)
+  -- memories ------------------------------------------------------------
+  | ["flat", n, k] => match n.toNat?, k.toNat? with
+    | some n, some k => ({ st with flat := (List.range n).map (cellVal k 0) }, "ok")
+    | _, _ => (st, "bad-op")
+  | ["mem", k, s1, s2, s3, mask] => match nats? [k, s1, s2, s3, mask] with
+    | some [k, s1, s2, s3, mask] =>
+      let n := if mask ≥ 256 then 11 else 8
+      let banks := (List.range n).map (fun b => if (mask >>> b) % 2 = 1 then some (mkBank st.base k b) else none)
+      ({ st with mem := ⟨List.replicate 16384 0, banks, s1, s2, s3⟩ }, "ok")
+    | _ => (st, "bad-op")
+  | ["fpoke", s] => match parsePoke s.toList with
+    | .error e => (st, "err " ++ errName e)
+    | .ok p => match pokeFlat st.flat p with
+      | .error e => (st, "err " ++ errName e)
+      | .ok l => ({ st with flat := l }, okStr (diffList st.flat l))
+  | ["fmove", s] => match parseMove s.toList with
+    | .error e => (st, "err " ++ errName e)
+    | .ok p => let l := moveFlat st.flat p; ({ st with flat := l }, okStr (diffList st.flat l))
+  | "fpatch" :: s :: data => match nats? data with
+    | none => (st, "bad-op")
+    | some data => match parsePatch s.toList with
+      | .error e => (st, "err " ++ errName e)
+      | .ok p => let l := patchFlat st.flat p data; ({ st with flat := l }, okStr (diffList st.flat l))
+  | ["mpoke", s] => match parsePoke s.toList with
+    | .error e => (st, "err " ++ errName e)
+    | .ok p => match pokeMem st.mem p with
+      | .error e => (st, "err " ++ errName e)
+      | .ok m => ({ st with mem := m }, okStr (diffMem st.mem m))
+  | ["mmove", s] => match parseMove s.toList with
+    | .error e => (st, "err " ++ errName e)
+    | .ok p => match moveMem st.mem p with
+      | .error e => (st, "err " ++ errName e)
+      | .ok m => ({ st with mem := m }, okStr (diffMem st.mem m))
+  | "mpatch" :: s :: data => match nats? data with
+    | none => (st, "bad-op")
+    | some data => match parsePatch s.toList with
+      | .error e => (st, "err " ++ errName e)
+      | .ok p => match patchMem st.mem p data with
+        | .error e => (st, "err " ++ errName e)
+        | .ok m => ({ st with mem := m }, okStr (diffMem st.mem m))
+  | _ => (st, "bad-op")
 
-def main : IO Unit := loop handle
+def main : IO Unit := loopSt (⟨[], ⟨[], [], 5, 2, 0⟩, baseBank⟩ : St) handle
